@@ -185,7 +185,7 @@ func Harness_E_C09() {
 
 // vhBand: with zero heights and LayerSpacing = LSFIX the Y of a node is ls * band index.
 func vhBandOf(in *vhIn, y float64) int {
-	for k := 0; k < 16; k++ {
+	for k := 0; k < 128; k++ {
 		if y == float64(k)*in.ls {
 			return k
 		}
